@@ -410,8 +410,13 @@ def mangle_file_for_iso9660(orig, iso_level):
                 basename = orig
 
     # All right, now we have the basename of the file, and (optionally) an
-    # extension.
-    return truncate_basename(basename, iso_level, False), valid_ext + ';1'
+    # extension.  Above level 1 it is the name and the extension together that
+    # are limited to 30 characters, so the extension eats into the name.
+    valid_base = truncate_basename(basename, iso_level, False)
+    if iso_level != 1:
+        valid_base = valid_base[:30 - len(valid_ext)]
+
+    return valid_base, valid_ext + ';1'
 
 
 def mangle_dir_for_iso9660(orig, iso_level):
